@@ -67,7 +67,7 @@ impl fmt::Debug for Buf {
         /* FIXME: allow printing of hex crap, data here does not have to be utf-8, and printing it
          * like this could panic.
          */
-        let s = std::str::from_utf8(self.inner.as_ref()).unwrap();
+        let s = String::from_utf8_lossy(self.inner.as_ref());
         f.write_fmt(format_args!("Bytes<{:?}>", s))
     }
 }
